@@ -10,7 +10,7 @@ open LyModel LyModel.Tree
 theorem reverse_roundtrip {S : Schema} {fx : Fixes} (K : KeyOrder S) {A D : List DNode} (hA : goodT S A = true)
     (hD : exactDiff S A D = true) :
     ∃ B R A', apply S A D fx = .ok B ∧ goodT S B = true ∧ reverse S D = .ok R ∧ heightL R = heightL D ∧
-      apply S B R fx = .ok A' ∧ normL A' = normL A := by
+      apply S B R fx = .ok A' ∧ normL13 A' = normL13 A := by
   obtain ⟨R, hR, hRh, _, _, B, hB, hgB, hkB, hloc1, hback⟩ :=
     listRev K D (heightL D + 1) false none A false (Nat.le_succ _) hA hD
   have hdk : dk S false D = D := by simp [dk]
